@@ -87,12 +87,14 @@ def field_default(cls, name):
 
 
 def generate_sections(ctx):
-    if not ctx.wants(PROPS | {"C16"}):
+    if not ctx.wants(PROPS | {"C16", "C08"}):
         return
     ns = namespace(ctx)
     for fn, (clsname, keys, required) in SECTIONS.items():
         # the met section is also a link of C16: lists, scalars and timestamps reach MetConfig as written
-        PS = PROPS | {"C16"} if fn == "_parse_met" else PROPS
+        # ... and of C08: the wind direction and speed of the configuration-driven run are what the file says (a direction
+        # of exactly 0 -- north -- included: seeded C08_3 replaced it by the default through `d.get("wind_dir") or 270.0`)
+        PS = PROPS | {"C16", "C08"} if fn == "_parse_met" else PROPS
         if not ctx.wants(PS):
             continue
         optional = [k for k in keys if k not in required]
